@@ -119,8 +119,9 @@ def order_variants(sub, rng, k):
 
 # parameter menus ------------------------------------------------------------
 
-LDPC_SMALL = [  # (k, r, N1, seed)
+LDPC_SMALL = [  # (k, r, N1, seed); regimes: odd/even N1 x completion entries added or not x tiny k x low code rate
     (4, 3, 3, 1), (5, 4, 3, 2), (6, 4, 4, 1), (3, 5, 3, 7), (1, 3, 3, 1), (2, 3, 3, 5),
+    (3, 8, 4, 1), (2, 6, 4, 2), (1, 5, 4, 1), (2, 7, 6, 5), (4, 8, 4, 3), (3, 7, 3, 2),
     (6, 6, 3, 11), (7, 4, 4, 3), (8, 4, 3, 1), (5, 5, 5, 9), (8, 6, 4, 2), (9, 5, 3, 4),
     (10, 4, 4, 6), (7, 7, 6, 13), (10, 6, 3, 21), (12, 4, 4, 8),
 ]
